@@ -1,7 +1,8 @@
 (* C18 driver.  One request per line:
-     (crash TREE FILES NAME TS ((n k) ...))   k = -1: no partial effect
+     (crash FIXED TREE FILES NAME TS ((n k) ...))   k = -1: no partial effect; FIXED = 1: code after
+                                                     the fix: commit for C18-F1 (disk check)
         -> ((effective effects) ((outcome state) ...))
-     (hist TREE (STEP ...)) -> ((result state) ...)
+     (hist FIXED TREE (STEP ...)) -> ((result state) ...)
    TREE  = ((path node) ...), path = (str ...), str = (codepoint ...), node = D | (F str)
    STEP  = (create files name ts) | (stale files name ts) | (write path str) | (delete path)
          | (mkdir path) | (restore name (tasks)) | (remodel name (tasks) (targets) ((in out) ...))
@@ -50,16 +51,16 @@ let optable (x : sx) : (n list -> n list) =
 
 let unit_res_sx (r : unit res) : sx = match r with Ok _ -> L [A "ok"] | Exn e -> L [A "exn"; exn_sx e]
 
-let step (f : fs) (s : sx) : sx * fs = match s with
+let step (fixed : bool) (f : fs) (s : sx) : sx * fs = match s with
   | L [A "create"; files; nm; ts] ->
     let (f1, r) = mgr_init f in
     (match r with
      | Exn e -> (L [A "exn"; exn_sx e], f1)
      | Ok m ->
-       let ((f2, _), rb) = create_backup m f1 (List.map sx_path (sx_list files)) (sx_str nm) (sx_str ts) in
+       let ((f2, _), rb) = create_backup fixed m f1 (List.map sx_path (sx_list files)) (sx_str nm) (sx_str ts) in
        ((match rb with Ok b -> L [A "ok"; bool_sx b] | Exn e -> L [A "exn"; exn_sx e]), f2))
   | L [A "stale"; files; nm; ts] ->
-    let ((f2, _), rb) = create_backup [] f (List.map sx_path (sx_list files)) (sx_str nm) (sx_str ts) in
+    let ((f2, _), rb) = create_backup fixed [] f (List.map sx_path (sx_list files)) (sx_str nm) (sx_str ts) in
     ((match rb with Ok b -> L [A "ok"; bool_sx b] | Exn e -> L [A "exn"; exn_sx e]), f2)
   | L [A "write"; p; c] -> (L [A "ok"], uapply (UWrite (sx_path p, sx_str c)) f)
   | L [A "delete"; p] -> (L [A "ok"], uapply (UDelete (sx_path p)) f)
@@ -82,13 +83,16 @@ let step (f : fs) (s : sx) : sx * fs = match s with
 let () = main_loop (fun x ->
   ignore (force_types O N0);
   match x with
-  | L [A "crash"; tree; files; nm; ts; points] ->
+  | L [A "crash"; fx; tree; files; nm; ts; points] ->
+    let fixed = sx_bool fx in
     let f = sx_tree tree in
     let (f0, r0) = mgr_init f in
     let files = List.map sx_path (sx_list files) in
     let nm = sx_str nm and ts = sx_str ts in
     let es = (match r0 with
-        | Ok m -> (match mgr_get m nm with Some _ -> [] | None -> create_effects nm files ts)
+        | Ok m -> (match mgr_get m nm with
+            | Some _ -> []
+            | None -> if fixed && exists_ f0 (backup_dir nm) then [] else create_effects nm files ts)
         | Exn _ -> []) in
     let effs = effective f0 es 0 [] in
     let pos = Array.of_list (List.map fst effs) in
@@ -103,7 +107,8 @@ let () = main_loop (fun x ->
           L [outcome_sx r; state_sx f1]
         | _ -> failwith "point") (sx_list points) in
     L [L (List.map (fun (_, e) -> effect_sx e) effs); L results]
-  | L [A "hist"; tree; steps] ->
+  | L [A "hist"; fx; tree; steps] ->
+    let fixed = sx_bool fx in
     let f = ref (sx_tree tree) in
-    L (List.map (fun s -> let (r, f') = step !f s in f := f'; L [r; state_sx f']) (sx_list steps))
+    L (List.map (fun s -> let (r, f') = step fixed !f s in f := f'; L [r; state_sx f']) (sx_list steps))
   | _ -> failwith "request")
